@@ -100,7 +100,7 @@ AfterReg(st, d, r) == IF r = "ok" THEN [st EXCEPT !.regs = @ \cup {Norm(d)}] ELS
 Step(st, o) ==
     CASE o.op = "reg" -> {[res |-> r, st |-> AfterReg(st, o.d, r)] : r \in RegResults(st, o.d)}
       [] o.op = "mod" -> {[res |-> "ok", st |-> [st EXCEPT !.online = o.on]]}
-      \* a request that arrives while the module starts (the start completes 100 ms later)
+      \* a request that arrives while the module starts (the start completes 30 ms later)
       [] o.op = "reqstart" -> {[res |-> "-", st |-> [st EXCEPT !.online = TRUE]]}
       [] OTHER -> {[res |-> "-", st |-> st]}
 
